@@ -32,9 +32,27 @@ ADV_NUMS = [1.5, 0.1, 1e-05, 1e16, -2.25, 100.0, decimal.Decimal("1.10"), decima
             decimal.Decimal("1E+2"), 1e100, -0.0, 2.5e-10]
 ADV_JSON = [{"a": 1}, {"k": "v'q", "n": [1, 2, None]}, [1, "two", {"x": True}], {"b\\s": "q\"d"}, {"q'": "'"}, ["\\", "\n", "'"], {"u": "ü "},
             {"deep": {"er": [{"x": "it's"}]}}, []]
+ADV_DICTS = [x for x in ADV_JSON if isinstance(x, dict)]
 FIXED_VALUES = [True, False, None, datetime.date(2020, 1, 2), datetime.datetime(2020, 1, 2, 3, 4, 5),
                 datetime.datetime(2020, 1, 2, 3, 4, 5, 600, tzinfo=datetime.timezone.utc), datetime.time(1, 2, 3),
                 uuid.UUID("12345678-1234-5678-1234-567812345678"), Order.asc, JoinType.left, Dialects.MYSQL]
+
+
+import enum  # noqa: E402
+
+
+class AdvEnum(enum.Enum):
+    quote = "it's"
+    trail = "trail\\"
+    mixed = "a'b\\c\"d"
+    comment = "x--y/*z*/"
+
+
+class MarkerEnum(enum.Enum):
+    m = "zqve0"
+
+
+FIXED_VALUES += list(AdvEnum)
 
 
 class Mapping:
@@ -80,9 +98,9 @@ class Mapping:
         if isinstance(v, (float, decimal.Decimal)):
             i = self._i("f", str(v))
             return 7700000.5 + i if mode == "B" else self._pick(ADV_NUMS, i, self.salt, lambda x, r: x)
-        if isinstance(v, (dict, list)):
+        if isinstance(v, dict):      # (a list becomes an SQL array / tuple of separately inlined elements: left as drawn)
             i = self._i("j", json.dumps(v, sort_keys=True))
-            return {"zqv": i} if mode == "B" else self._pick(ADV_JSON, i, self.salt, lambda x, r: x)
+            return {"zqv": i} if mode == "B" else self._pick(ADV_DICTS, i, self.salt, lambda x, r: x)
         return v
 
     def coq_map(self):
@@ -105,7 +123,7 @@ class Mapping:
                 a = self._pick(ADV_NUMS, i, self.salt, lambda x, r: x)
                 ents.append("(%s, MVal %s)" % (cstr(str(7700000.5 + i)), dump_value(a)))
             elif kind == "j":
-                a = self._pick(ADV_JSON, i, self.salt, lambda x, r: x)
+                a = self._pick(ADV_DICTS, i, self.salt, lambda x, r: x)
                 ents.append("(%s, MVal %s)" % (cstr(json.dumps({"zqv": i})), dump_value(a)))
         return clist(ents)
 
